@@ -885,7 +885,7 @@ def floors(tier):
     }
     for c in CLASSES:
         f["class:" + c] = (2 if c in LEN_CLASSES else 3) if q else 60
-    f["class:partial"] = 10 if q else 150
+    f["class:partial"] = 10 if q else 100
     f["class:widecol"] = 3 if q else 60
     f["class:lcdtie"] = 2 if q else 30
     f["dict_taken_before_the_text_report"] = 80 if q else 1500
